@@ -53,12 +53,16 @@ Definition discard_value (v : value) (base : N) (scale offset : float) : value :
   match v with
   | VNum TF64 x =>
       match bt_ntype base with
-      | Some TF64 | Some TF32 | Some TBool | None => v
+      | Some TF64 => VNum TF64 (if f64_is_nan_bits x then N.lor x 2251799813685248
+                                else if is_one scale && is_zero offset then x else f64_bits (so_discard (f64_of_bits x) scale offset))
+      | Some TF32 | Some TBool | None => v
       | _ => match discard_elt base x scale offset with Some (t, y) => VNum t y | None => v end
       end
   | VArr TF64 l =>
       match bt_ntype base with
-      | Some TF64 | Some TF32 | Some TBool | None => v
+      | Some TF64 => VArr TF64 (map (fun x => if f64_is_nan_bits x then N.lor x 2251799813685248
+                                else if is_one scale && is_zero offset then x else f64_bits (so_discard (f64_of_bits x) scale offset)) l)
+      | Some TF32 | Some TBool | None => v
       | Some t => if base =? bt_enum then v else
                   VArr t (map (fun x => match discard_elt base x scale offset with Some (_, y) => y | None => 0 end) l)
       end
